@@ -244,6 +244,11 @@ pub fn candidates(sink: &mut Sink, seed: u64, thorough: bool) {
             specs.push(mk(vec![ch; n], Some(e), if j % 3 == 0 { None } else { Some(mode) }, None, None, format!("cand:uniform:{v}")));
         }
     }
+    // periodic contents (periods of the mask patterns and of the symbol width) and user-like texts: strongly patterned candidates
+    for (i, st) in crate::scen_build::structured(seed, thorough).into_iter().filter(|s| s.tag.starts_with("real:")).enumerate() {
+        if !thorough && i % 4 != 0 { continue; }
+        specs.push(mk(st.input, st.ecl, None, None, None, "cand:real".into()));
+    }
     // Exact steps of the dark-ratio term: it changes at 40% and 60% dark, and a symbol can sit EXACTLY on such a step only when
     // 5 divides its side (versions 2, 7, 12, ... 37).  A steered search looks for payloads where a candidate has exactly 2/5 or 3/5
     // of its modules dark AND is within ten points of the best other candidate: the inputs where an off-by-one-step in that term
